@@ -42,8 +42,8 @@ def check_trace(accepted, history_tols):
 # --------------------------------------------------------------------------
 # white-box histories
 
-def wb_history(rng, big):
-    tol = rng.choice([1, 999_999_999, SEC, 2 * SEC, 300 * SEC, 7_777_777_777])
+def wb_history(rng, big, tol=None):
+    tol = tol or rng.choice([1, 999_999_999, SEC, 2 * SEC, 300 * SEC, 7_777_777_777])
     names = rng.choice([("X-Signature", "X-Timestamp", "X-Nonce"), ("X-Sig", "X-Ts", "X-Request-Nonce"),
                         ("x-hub-signature", "x-hub-time", "x-hub-nonce")])
     secrets = [b"k-one"] + ([b"second-secret"] if rng.random() < 0.4 else [])
@@ -54,7 +54,7 @@ def wb_history(rng, big):
     events = []   # (now, kind, payload)
     tracked = []
     for qi in range(rng.randrange(2, 6)):
-        ts = base + rng.choice([0, 0, 1, -1, tol_s, -tol_s, 2 * tol_s + 1])
+        ts = base + (rng.choice([0, 0, 1, -1, tol_s, -tol_s, 2 * tol_s + 1]) if tol <= 10 ** 18 else rng.choice([0, 1, -1, 86400]))
         nonce = "n%d-%d" % (qi, rng.randrange(1000))
         body = bytes(rng.randrange(256) for _ in range(rng.choice([0, 1, 7, 64, 200])))
         pth = rng.choice(["/hooks", "/hooks/a", "/"])
@@ -63,11 +63,17 @@ def wb_history(rng, big):
         t = q["ts"] * SEC
         cand = [t - tol - 1, t - tol, t - tol + 1, t - 1, t, t + 1, t + tol - 1, t + tol, t + tol + 1,
                 t + rng.randrange(-tol, tol + 1), t + rng.randrange(-tol, tol + 1)]
+        if tol > 10 ** 18:
+            # a tolerance of centuries (compile accepts any positive duration): signed instant + tolerance lies beyond the int64
+            # nanosecond range; the clock stays in this century - every later presentation of the nonce is a replay
+            cand = [t, t, t + 1, t + SEC, t + 86400 * SEC, t + 365 * 86400 * SEC, t - 1, t - 86400 * SEC, t + 2]
         for now in rng.sample(cand, rng.randrange(3, 9)):
             kind = rng.choices(["valid", "badsig", "padnonce", "nononce", "blanknonce", "oddhex", "upperhex"],
                                [10, 3, 2, 1, 1, 1, 2])[0]
             events.append((now, kind, q))
     nfill = rng.choice([0, 10, 60]) if not big else big
+    if tol > 10 ** 18:
+        nfill = 0
     lo = min(q["ts"] for q in tracked) * SEC - 2 * tol
     hi = max(q["ts"] for q in tracked) * SEC + 2 * tol
     for fi in range(nfill):
@@ -82,7 +88,7 @@ def wb_history(rng, big):
         rng.shuffle(events)
     # authenticator replacements (reload): tolerance grown / shrunk / same
     inherits = []
-    if rng.random() < 0.35:
+    if rng.random() < 0.35 and tol <= 10 ** 18:
         for _ in range(rng.randrange(1, 3)):
             inherits.append((rng.randrange(0, len(events) + 1), rng.choice([tol, tol * 2, max(1, tol // 2), tol + 1, 600 * SEC])))
     out = []
@@ -378,6 +384,7 @@ def main(ctx, replay):
     n_small = 24 if ctx.tier == "quick" else 400
     bigs = [1000, 2000] if ctx.tier == "quick" else [1500, 3000, 3000, 5000, 2000, 4000, 2500, 3500]
     hists = [wb_history(rng, False) for _ in range(n_small)] + [wb_history(rng, b) for b in bigs]
+    hists += [wb_history(rng, False, tol=t_) for t_ in (250 * 365 * 86400 * SEC, 2190000 * 3600 * SEC, 2 ** 63 - 1)]
     rc, out, err = C.harness_run(info["hbin"], ["hmac-seq"], {"histories": [strip(h) for h in hists]})
     if rc != 0:
         raise RuntimeError("hmac-seq failed: " + err[-2000:])
@@ -410,7 +417,7 @@ def main(ctx, replay):
             m_ok, m_size, m_cs = mo
             i_cs = 0
             if e.get("snap"):
-                i_cs = G.cache_checksum((bytes.fromhex(k), v) for k, v in (io.get("cache") or []))
+                i_cs = G.cache_checksum((bytes.fromhex(k), int(v)) for k, v in (io.get("cache") or []))
             if bool(m_ok) != bool(io["ok"]) or m_size != io["size"] or (e.get("snap") and m_cs != i_cs):
                 C.report(ctx, "whitebox-mismatch:%s" % e.get("_kind", "inherit"),
                          "HMACAuth.Verify / nonce cache disagrees with the model at event %d (impl ok=%s size=%d, model ok=%s size=%d, checksum %s)" % (
